@@ -13,7 +13,7 @@ def rank (g : Glob) (th : Thread) : Nat :=
   match th.pc with
   | .idle => 0
   | .lAcq => 13 | .lGet => 12 | .lTest => 11 | .lAlloc => 10 | .lInit => 9 | .lSdRead => 8 | .lSdWrite => 7
-  | .xTouch => 6 | .xLen => 5 | .xEvict => 4 | .xRel => 3 | .xRet => 2
+  | .xTouch => 6 | .xLen => 5 | .xEvict => 4 | .xRel => 3 | .xRet => 2 | .xRelX => 1
   | .gAcq => 16 | .gGet => 15 | .gTest => 14 | .gAlloc => 13 | .gInit => 12 | .gCheck => 11 | .gStore => 10
   | .gRelE => 3 | .gRetE => 2
   | .sAcq => 2 * g.strong.length + 5 | .sSet => 2 * g.strong.length + 4
@@ -26,7 +26,7 @@ theorem rank_decreases {t : Tid} {g g' : Glob} {th th' : Thread} (hpc : th.pc ‚â
     (h : tstep kd res t g th = some (g', th')) : rank g' th' < rank g th := by
   cases hp : th.pc <;> simp only [hp, ne_eq, not_true_eq_false, reduceCtorEq, not_false_eq_true] at hpc <;>
     simp only [tstep, hp] at h
-  all_goals (try (split at h)) <;> (try (split at h)) <;>
+  all_goals (try (split at h)) <;> (try (split at h)) <;> (try (split at h)) <;> (try (split at h)) <;>
     (try simp only [Option.some.injEq, Prod.mk.injEq, reduceCtorEq] at h) <;>
     (try (obtain ‚ü®rfl, rfl‚ü© := h)) <;> simp only [rank, hp] <;> (try split) <;>
     (try simp_all only [List.length_cons]) <;> omega
